@@ -14,7 +14,7 @@ RULE = ("event trains of 30..300 events with gaps U(0.5,10) s, drift U(-100,100)
         "missing on each side and |drift| > 1 ppm; distinct = distinct (n, missing a, missing b, mode, sign of offset, drift decile)")
 ASSUMPTIONS = ["tolerances follow least-squares error propagation: drift error <= 1 ppm + 4*jitter/T*1e6; mapping error at held-out events <= 2 ms",
                "'nearly all' true correspondences = at least 95 %"]
-REQUIRED = {"trains": 100, "adjacent_opposite_misses": 100, "pairs_checked": 5000, "heldout_checked": 100, "drift_checked": 100}
+REQUIRED = {"short_train_drifts_checked": 60, "trains": 100, "adjacent_opposite_misses": 100, "pairs_checked": 5000, "heldout_checked": 100, "drift_checked": 100}
 CASE_TIMEOUT = 120.0
 
 
@@ -71,9 +71,18 @@ def run_case(case):
             gaps[adjacent + 1] = 0.5
             drift = float(rng.uniform(-60, 60)) * 1e-6
             res.count("adjacent_opposite_misses")
+        short_train = None
+        if _ == 3 and short_gaps is None and force_linear is None and adjacent is None:
+            # round 23: a short session (40-80 events, 0.5-1.5 s apart) with the largest admissible jitter: the reported drift is the least-squares slope over
+            # ALL matched pairs - an estimate resting on a few of them (the two ends, say) is several times less accurate and is told apart by that
+            n = int(rng.integers(40, 81))
+            gaps = rng.uniform(0.5, 1.5, n)
+            drift = float(rng.uniform(-100, 100)) * 1e-6
+            short_train = True
+            res.count("short_trains")
         t_true = np.cumsum(gaps) + float(rng.uniform(0, 100))
         offset = float(rng.uniform(-180, 180))
-        jit = float(rng.uniform(0, 1e-4)) if force_linear is None else float(rng.uniform(0.7e-4, 1e-4))
+        jit = float(rng.uniform(0, 1e-4)) if (force_linear is None and short_train is None) else float(rng.uniform(0.7e-4, 1e-4))
         ma, mb = int(rng.integers(0, 6)), int(rng.integers(0, 6))
         drop_a = np.sort(rng.choice(n, ma, replace=False))
         drop_b = np.sort(rng.choice(np.setdiff1d(np.arange(n), drop_a), mb, replace=False))
@@ -144,6 +153,12 @@ def run_case(case):
         res.measure("max_drift_error_ppm", derr)
         res.measure("max_drift_error_over_tolerance", derr / tol_drift)
         res.check(derr <= tol_drift, "sync:drift", f"{label}: drift {drift_ppm:.3f} ppm, true {drift * 1e6:.3f} ppm (tolerance {tol_drift:.2f})", counter="drift_checked")
+        if short_train and len(pa) > 10:
+            # what the least-squares slope over the matched pairs can be off by: each difference b - a carries two independent uniform(-jit, jit) errors
+            sig_ls = jit * np.sqrt(2.0 / 3.0) / np.sqrt(np.sum((tsa[pa] - tsa[pa].mean()) ** 2)) * 1e6
+            res.measure("max_short_train_drift_error_over_ls_sigma", derr / sig_ls)
+            res.check(derr <= 0.05 + 6 * sig_ls, "sync:drift:short-train", f"{label}: drift {drift_ppm:.3f} ppm, true {drift * 1e6:.3f} ppm: off by {derr:.2f} ppm = {derr / sig_ls:.1f} "
+                      f"standard errors of the least-squares slope over the {len(pa)} matched pairs ({sig_ls:.2f} ppm)", counter="short_train_drifts_checked")
         # two-output form agrees
         try:
             f2, d2 = U.sync_timestamps(tsa, tsb, linear=linear)
